@@ -277,6 +277,29 @@ func C07(r *eng.Run) {
 				nt++
 			}
 		}
+		// precisions tied to this value: around its digit count and around its number of fraction digits
+		L := len(fv.dig.D)
+		rel := map[int]bool{}
+		for d := -2; d <= 2; d++ {
+			rel[L+d] = true
+			rel[L-fv.dig.DP+d] = true
+			rel[-fv.dig.DP+d] = true
+		}
+		for p := range rel {
+			if p < 0 || p > 60 {
+				continue
+			}
+			for _, verb := range []byte("eEfFgG") {
+				for _, fl := range []int{0, 1, 4, 16, 2 | 16, 8} {
+					for _, wd := range []int{-1, 12, 45} {
+						sp := ref.Spec{Plus: fl&1 != 0, Minus: fl&2 != 0, Sharp: fl&4 != 0, Space: fl&8 != 0, Zero: fl&16 != 0, Wid: maxi(wd, 0), WidPresent: wd >= 0, Prec: p, PrecPresent: true, Verb: verb}
+						checkFmt(w, fv, sp, sp.String())
+						nt++
+						n++
+					}
+				}
+			}
+		}
 		w.CellN(fmt.Sprintf("product/len%d", len(fv.dig.D)), nt, true)
 		w.CellN("product/plain", n-nt, false)
 		// Format / Append(d, verb, prec)
